@@ -56,29 +56,35 @@ Theorem gather_nil_error_all_present : forall (lg ped : bool) (ids : list Z) (ar
   Permutation (all_metrics (fst (gather lg ped ids arr))) (map emitted_as arr).
 Proof. exact C09_proofs.gather_all_present_lemma. Qed.
 
-(* order independence: two arrival orders of the same metrics that both report no error return the same families
-   (names, help, type, in the same order) with the same metrics per family, up to the order of the metrics inside
-   a family (see metric_order_depends_on_arrival_refuted for why not more) *)
+(* order independence: two arrival orders of the same metrics that both report no error return the SAME slices:
+   same families in the same order, same metrics in the same order inside every family (MetricSorter.Less is a strict
+   total order on metrics with distinct (labels, timestamp), which gather_valid guarantees inside the result) *)
 Theorem gather_order_independent : forall (lg ped : bool) (ids : list Z) (arr1 arr2 : list emitted),
   names_ok arr1 -> Permutation arr1 arr2 ->
   snd (gather lg ped ids arr1) = [] -> snd (gather lg ped ids arr2) = [] ->
-  same_result (fst (gather lg ped ids arr1)) (fst (gather lg ped ids arr2)).
-Proof. exact C09_proofs.gather_order_independent_lemma. Qed.
+  fst (gather lg ped ids arr1) = fst (gather lg ped ids arr2).
+Proof. exact C09_proofs.gather_order_independent_exact_lemma. Qed.
+
+(* MetricSorter.Less: transitive, asymmetric, and total up to equal (labels, timestamp) *)
+Theorem metric_lt_strict_total_order :
+  (forall a b c, metric_lt a b = true -> metric_lt b c = true -> metric_lt a c = true) /\
+  (forall a b, metric_lt a b = true -> metric_lt b a = false) /\
+  (forall a b, metric_lt a b = false -> metric_lt b a = false -> mkey a = mkey b).
+Proof. exact (conj C09_proofs.metric_lt_trans (conj C09_proofs.metric_lt_asym C09_proofs.metric_lt_total)). Qed.
+
+(* every returned family carries a valid metric name, given that Descs without error do (NewDesc's guarantee;
+   a forged zero-value Desc breaks it: KNOWN finding forged-desc, stream known-forged-desc) *)
+Theorem gather_family_names_valid : forall (lg ped : bool) (ids : list Z) (arr : list emitted),
+  desc_names_valid lg arr -> family_names_ok lg (fst (gather lg ped ids arr)) = true.
+Proof. exact C09_proofs.gather_names_valid_lemma. Qed.
 
 (* REFUTED, strong reading of "whenever no error is reported the result is independent of the order": whether an error
-   is reported at all can depend on the order (a dto.Metric with two payloads set); confirmed on the real code *)
+   is reported at all can depend on the order (a dto.Metric with two payloads set); confirmed on the real code.
+   KNOWN finding multi-payload-order (known_findings.txt), reproduced by stream known-multi-payload-order *)
 Theorem nil_error_depends_on_order_refuted :
   exists lg ped ids arr1 arr2, names_ok arr1 /\ Permutation arr1 arr2 /\
     snd (gather lg ped ids arr1) = [] /\ snd (gather lg ped ids arr2) <> [].
 Proof. exact C09_proofs.nil_error_depends_on_order_refuted_lemma. Qed.
-
-(* REFUTED, equality of the returned slices: MetricSorter.Less compares label values only, metrics of one family with
-   different label names and equal values come out in arrival order; confirmed on the real code *)
-Theorem metric_order_depends_on_arrival_refuted :
-  exists lg ped ids arr1 arr2, names_ok arr1 /\ Permutation arr1 arr2 /\
-    snd (gather lg ped ids arr1) = [] /\ snd (gather lg ped ids arr2) = [] /\
-    fst (gather lg ped ids arr1) <> fst (gather lg ped ids arr2).
-Proof. exact C09_proofs.metric_order_depends_on_arrival_refuted_lemma. Qed.
 
 (* Gatherers: merging any answers whose families are named and typed 0..4 (e.g. Registry.Gather results) is valid *)
 Theorem gatherers_valid : forall (lg : bool) (gs : list (list family * list Z)),
